@@ -27,6 +27,8 @@ type PItem struct {
 func sha(s string) string { return fmt.Sprintf("%x", sha1.Sum([]byte(s)))[:16] }
 
 // processItem runs the whole in-memory pipeline on one item and returns a digest of everything it produced.
+func normaliseDir(msg, dir string) string { return strings.ReplaceAll(msg, dir, "<dir>") }
+
 func processItem(it PItem) string {
 	var b strings.Builder
 	err := safely(func() error {
@@ -66,6 +68,19 @@ func processItem(it PItem) string {
 			fmt.Fprintf(&b, "LALRERR %s", err)
 		} else {
 			b.WriteString(T.String())
+		}
+		// the emitted package: what the generator writes is part of the outcome too
+		dir, derr := os.MkdirTemp("", "verif-purity-")
+		if derr == nil {
+			if gerr := golang.Generate(ui.NewNop(), &golang.Params{Path: dir, Spec: s}); gerr != nil {
+				fmt.Fprintf(&b, "GENERR %s", normaliseDir(gerr.Error(), dir))
+			}
+			ents, _ := os.ReadDir(filepath.Join(dir, s.Name))
+			for _, en := range ents {
+				data, _ := os.ReadFile(filepath.Join(dir, s.Name, en.Name()))
+				fmt.Fprintf(&b, "%s %s\n", en.Name(), sha(string(data)))
+			}
+			os.RemoveAll(dir)
 		}
 		return nil
 	})
